@@ -11,7 +11,7 @@
    tables of all 14 bands x repeater x dwell-time, dumped from the live code. *)
 From Coq Require Import List ZArith Bool Sorting.Sorted.
 From LW Require Import Base.Outcome Band.Channels Band.Planner Band.PlannerSpec Band.CrossLayer
-  Band.PlannerProofs Band.PlannerUSProofs Band.PlannerTotal Band.ChannelsGenProofs Band.EndToEnd.
+  Band.PlannerProofs Band.PlannerUSProofs Band.PlannerTotal Band.PlannerKnown Band.ChannelsGenProofs Band.EndToEnd.
 From LWGen Require Import ChannelsGen.
 Import ListNotations.
 Open Scope Z_scope.
@@ -28,21 +28,22 @@ Proof. exact target_sorted. Qed.
 Print Assumptions C14_target_sorted.
 
 (* generic planner: for EVERY channel table of at most 256 channels and EVERY
-   device channel list (any order, duplicates allowed, entries below 256 - in
-   particular every list of valid indices), applying the planned payloads
-   yields exactly the target *)
+   device channel list (any order, duplicates, and entries that are not channels of
+   the plan: negative, beyond the plan, 256, 4096, 2^63 - the planner drops them,
+   /repo fix for finding C14-4, and the apply function ignores them), applying the
+   planned payloads yields exactly the target *)
 Theorem C14_generic_sound : forall (s : st) dev,
-  zlen (up s) <= 256 -> (forall c, In c dev -> 0 <= c < 256) ->
+  zlen (up s) <= 256 ->
   exists pls, plan_generic 16 s dev = Ok pls /\ apply_generic 16 s dev pls = Ok (target s dev).
-Proof. exact (generic_sound 16 eq_refl). Qed.
+Proof. exact (generic_sound_all 16 eq_refl). Qed.
 Print Assumptions C14_generic_sound.
 
 (* ... and the same for any block size (the model's parameter), e.g. for the
    exhaustive small-instance evaluation *)
 Theorem C14_generic_sound_any_block_size : forall B, 0 < B -> forall (s : st) dev,
-  zlen (up s) <= 256 -> (forall c, In c dev -> 0 <= c < 256) ->
+  zlen (up s) <= 256 ->
   exists pls, plan_generic B s dev = Ok pls /\ apply_generic B s dev pls = Ok (target s dev).
-Proof. exact generic_sound. Qed.
+Proof. exact generic_sound_all. Qed.
 Print Assumptions C14_generic_sound_any_block_size.
 
 (* beyond 256 channels the statement is false (finding C14-2: uint8 wrap of ChMaskCntl*16) *)
@@ -52,22 +53,28 @@ Theorem C14_sound_refuted_above_256 :
 Proof. exact sound_refuted_257. Qed.
 Print Assumptions C14_sound_refuted_above_256.
 
-(* at most one payload per 16-channel block (the property allows one more) *)
-Theorem C14_count : forall (s : st) dev, (forall c, In c dev -> 0 <= c < zlen (up s)) ->
+(* at most one payload per 16-channel block (the property allows one more), for every device list *)
+Theorem C14_count : forall (s : st) dev,
   exists pls, plan_generic 16 s dev = Ok pls /\ Z.of_nat (length pls) <= blocks 16 (zlen (up s)).
-Proof. exact (generic_count 16 eq_refl). Qed.
+Proof. exact (generic_count_all 16 eq_refl). Qed.
 Print Assumptions C14_count.
 
-(* nothing is produced when the device already matches *)
+(* nothing is produced when the device already matches - also when it matches on the
+   channels of the plan and reports further indices the plan does not have *)
 Theorem C14_noop : forall (s : st) dev, same_set dev (target s dev) -> plan_generic 16 s dev = Ok [].
-Proof. exact (generic_noop 16). Qed.
+Proof. exact (generic_noop_all 16). Qed.
 Print Assumptions C14_noop.
 
-(* every payload is encodable when the plan has at most 128 channels ... *)
+Theorem C14_noop_known_channels : forall (s : st) dev,
+  same_set (known_channels (zlen (up s)) dev) (target s dev) -> plan_generic 16 s dev = Ok [].
+Proof. exact (generic_noop_known 16). Qed.
+Print Assumptions C14_noop_known_channels.
+
+(* every payload is encodable when the plan has at most 128 channels, for every device list ... *)
 Theorem C14_encodable : forall (s : st) dev,
-  zlen (up s) <= 128 -> (forall c, In c dev -> 0 <= c < 128) ->
+  zlen (up s) <= 128 ->
   exists pls, plan_generic 16 s dev = Ok pls /\ forallb encodable pls = true.
-Proof. exact generic_encodable. Qed.
+Proof. exact generic_encodable_all. Qed.
 Print Assumptions C14_encodable.
 
 (* ... which means: LinkADRReqPayload.MarshalBinary (model) accepts it and it decodes back *)
@@ -84,34 +91,49 @@ Theorem C14_encodable_refuted_above_128 :
 Proof. exact encodable_refuted_129. Qed.
 Print Assumptions C14_encodable_refuted_above_128.
 
+(* the code before the fix for finding C14-4 ([plan_generic_prefix]: no restriction of the
+   device list) on a pristine three-channel plan: an unencodable ChMaskCntl 8 for device
+   {0,1,2,130}; for {0,1,2,4096} the block number wraps to 0 and the payload switches every
+   channel off; seven payloads for a one-block plan.  The repaired planner plans nothing. *)
+Theorem C14_prefix_refuted :
+  (exists pls, plan_generic_prefix 16 eu3 [0; 1; 2; 130] = Ok pls /\ forallb encodable pls = false) /\
+  (exists pls, plan_generic_prefix 16 eu3 [0; 1; 2; 4096] = Ok pls /\
+               apply_generic 16 eu3 [0; 1; 2; 4096] pls = Ok [] /\ target eu3 [0; 1; 2; 4096] = [0; 1; 2]) /\
+  (exists pls, plan_generic_prefix 16 eu3 [0; 1; 2; 16; 32; 48; 64; 80; 96; 112] = Ok pls /\ length pls = 7%nat) /\
+  plan_generic 16 eu3 [0; 1; 2; 130] = Ok [] /\ plan_generic 16 eu3 [0; 1; 2; 4096] = Ok [] /\
+  plan_generic 16 eu3 [0; 1; 2; 16; 32; 48; 64; 80; 96; 112] = Ok [].
+Proof. exact prefix_refuted. Qed.
+Print Assumptions C14_prefix_refuted.
+
 (* US915 / AU915: two strategies, the shorter wins; for the 72-channel layout
-   (no custom channels) the device ends up with exactly the enabled channels *)
-Theorem C14_us_sound : forall (s : st) dev, us_layout s -> (forall c, In c dev -> 0 <= c < 72) ->
+   (no custom channels) the device ends up with exactly the enabled channels, whatever
+   the device list holds *)
+Theorem C14_us_sound : forall (s : st) dev, us_layout s ->
   exists pls, plan_us 16 s dev = Ok pls /\ apply_us 16 s dev pls = Ok (get_enabled_uplink_channel_indices s).
-Proof. exact us_sound. Qed.
+Proof. exact us_sound_all. Qed.
 Print Assumptions C14_us_sound.
 
-Theorem C14_us_count : forall (s : st) dev, (forall c, In c dev -> 0 <= c < zlen (up s)) ->
+Theorem C14_us_count : forall (s : st) dev,
   exists pls, plan_us 16 s dev = Ok pls /\ Z.of_nat (length pls) <= blocks 16 (zlen (up s)).
-Proof. exact us_count. Qed.
+Proof. exact us_count_all. Qed.
 Print Assumptions C14_us_count.
 
 Theorem C14_us_noop : forall (s : st) dev, same_set dev (target s dev) -> plan_us 16 s dev = Ok [].
-Proof. exact us_noop. Qed.
+Proof. exact us_noop_all. Qed.
 Print Assumptions C14_us_noop.
 
-Theorem C14_us_encodable : forall (s : st) dev, us_layout s -> (forall c, In c dev -> 0 <= c < 72) ->
+Theorem C14_us_encodable : forall (s : st) dev, us_layout s ->
   exists pls, plan_us 16 s dev = Ok pls /\ forallb encodable pls = true.
-Proof. exact us_encodable. Qed.
+Proof. exact us_encodable_all. Qed.
 Print Assumptions C14_us_encodable.
 
 (* no panic, for EVERY device list (negative, huge, repeated entries) and EVERY payload list *)
 Theorem C14_planner_total : forall B (s : st) dev, exists pls, plan_generic B s dev = Ok pls.
-Proof. exact plan_generic_total. Qed.
+Proof. exact plan_generic_total_all. Qed.
 Print Assumptions C14_planner_total.
 
 Theorem C14_us_planner_total : forall B (s : st) dev, exists pls, plan_us B s dev = Ok pls.
-Proof. exact plan_us_total. Qed.
+Proof. exact plan_us_total_all. Qed.
 Print Assumptions C14_us_planner_total.
 
 Theorem C14_apply_never_panics : forall (s : st) dev pls,
@@ -135,15 +157,15 @@ Qed.
 Print Assumptions C14_band_tables.
 
 (* the property for the bands that exist: every configuration, every history,
-   every list of valid device channels (the 256-channel bound is finding C14-2) *)
+   every device channel list (the 256-channel bound is finding C14-2) *)
 Theorem C14_all_bands_sound : forall nm rep dw s0 ops dev, In (nm, rep, dw, s0) configs ->
   let s := run s0 ops in
-  zlen (up s) <= 256 -> (forall c, In c dev -> 0 <= c < zlen (up s)) ->
+  zlen (up s) <= 256 ->
   exists pls, plan (us_like nm) 16 s dev = Ok pls /\ apply (us_like nm) 16 s dev pls = Ok (target s dev).
 Proof. exact all_bands_sound. Qed.
 Print Assumptions C14_all_bands_sound.
 
-Theorem C14_all_bands_count : forall nm (s : st) dev, (forall c, In c dev -> 0 <= c < zlen (up s)) ->
+Theorem C14_all_bands_count : forall nm (s : st) dev,
   exists pls, plan (us_like nm) 16 s dev = Ok pls /\ Z.of_nat (length pls) <= blocks 16 (zlen (up s)).
 Proof. exact all_bands_count. Qed.
 Print Assumptions C14_all_bands_count.
@@ -156,7 +178,7 @@ Print Assumptions C14_all_bands_noop.
 (* the 128-channel bound is finding C14-1 *)
 Theorem C14_all_bands_encodable : forall nm rep dw s0 ops dev, In (nm, rep, dw, s0) configs ->
   let s := run s0 ops in
-  zlen (up s) <= 128 -> (forall c, In c dev -> 0 <= c < zlen (up s)) ->
+  zlen (up s) <= 128 ->
   exists pls, plan (us_like nm) 16 s dev = Ok pls /\
     forall p, In p pls -> encodable p = true /\
       exists bs, linkadrreq_marshal p = Ok bs /\ linkadrreq_unmarshal bs = Ok p.
